@@ -150,7 +150,9 @@ class FuzzyFinder(object):
     @staticmethod
     def _check_duplicate_attrs(attrs_list, attr):
         for i in attrs_list:
-            if attr[1][0] == i[1][0]:
+            # the same attribute of the same kind of object cannot have two values;
+            # a Section and a Property attribute of the same name can be combined.
+            if attr[0] == i[0] and attr[1][0] == i[1][0]:
                 return False
         return True
 
